@@ -347,3 +347,10 @@ def main(ctx):
     ctx.lattice("text-roundtrip", units, one,
                 bounds=dict(tables=len(tables), one_field_tables=n1, rows=[1, 3], delims=[repr(x) for x in delims],
                             value_offsets=voffs, writers=WRITERS, readers=READERS_H + READERS_P))
+
+    # ------------------------------------------- several text files open at once (process-wide state)
+    # readers/writers of files with DIFFERENT delimiters alive in one process: format tables or reader
+    # dtypes kept per class / per module instead of per object (mc/handles.py)
+    from mc.handles import several_handles
+    several_handles(ctx, "several-text-handles", ["colon", "comma", "pipe"], depth=ctx.pick(4, 5),
+                    selections=[("all",), ("cols", ("b", "a")), ("rowscols", (1,), ("s", "b"))], nodedup_depth=ctx.pick(3, 4))
